@@ -187,7 +187,7 @@ func c10RunBudgetPart(env *mc.Env) {
 	annoV := []anno{{0, false}, {u(1), false}, {u(2), true}}
 	hbnV := []int64{0, u(0.5)} // BE host app without cgroupPath
 	// BE host app with an explicit base outside kubepods besteffort: index 0 = no such app, else 1 CPU under that base
-	otherBases := []string{"", string(slov1alpha1.CgroupBaseTypeRoot), string(slov1alpha1.CgroupBaseTypeKubeBurstable)}
+	otherBases := []string{"", string(slov1alpha1.CgroupBaseTypeKubeBurstable)}
 	if env.Thorough() {
 		otherBases = []string{"", string(slov1alpha1.CgroupBaseTypeRoot), string(slov1alpha1.CgroupBaseTypeKubepods), string(slov1alpha1.CgroupBaseTypeKubeBurstable)}
 		caps = []int{1, 2, 4, 8, 16}
@@ -352,7 +352,7 @@ func c10RunBudgetPart(env *mc.Env) {
 	if !complete {
 		res.Capped = fmt.Sprintf("time budget hit after %d of %d cases", done, rx.Size())
 	}
-	res.Rule = fmt.Sprintf("every member of capacity%v x threshold%%%v x min%%{nil,0,25} x LS pod usage x LSR pod usage x unlabelled pod usage x BE pod usage x LS host-app usage x BE host-app usage x system usage (incl. negative and > capacity) x kubelet reservation x annotation reservation (resources.cpu / reservedCPUs) x host app without metric{n,y} x BE host app without cgroupPath usage x BE host app with base{none,CgroupRoot,KubepodsBurstable (+Kubepods thorough)} (usage alphabets in the evidence bounds); every case is non-trivial (formula judged); distinct = distinct (input, budget)", caps, thrs)
+	res.Rule = fmt.Sprintf("every member of capacity%v x threshold%%%v x min%%{nil,0,25} x LS pod usage x LSR pod usage x unlabelled pod usage x BE pod usage x LS host-app usage x BE host-app usage x system usage (incl. negative and > capacity) x kubelet reservation x annotation reservation (resources.cpu / reservedCPUs) x host app without metric{n,y} x BE host app without cgroupPath usage x BE host app with base{none,KubepodsBurstable (+CgroupRoot,Kubepods thorough)} (usage alphabets in the evidence bounds); every case is non-trivial (formula judged); distinct = distinct (input, budget)", caps, thrs)
 	res.Bounds = map[string]any{"cases": rx.Size(), "ls_pod_usage_micro": lsV, "lsr_pod_usage_micro": lsrV, "hostapp_usage_micro": hlsV, "system_usage_micro": sysV, "kubelet_reserved_micro": kubV,
 		"note": "-7 stands for capacity+4 CPUs"}
 	res.Assumptions = []string{
